@@ -359,6 +359,7 @@ func runC18(c *Ctx) {
 			c.Check(used, rF, "set-lines:"+p.FuncKey(impl), FirstPos(p, impl), "the snapshot is consumed", "SetLines drops the snapshot it is given: a follower that subscribes with a tail receives only the lines written afterwards")
 		}
 		c.Check(nS >= 1, rF, "floor:set-lines", "", "SetLines implementations found", "no LogObserver.SetLines implementation in pclog/api")
+		s.checkObserversNeverNil(c, rF)
 		if unsub := p.TryMethod("app", "ProjectRunner", "UnSubscribeLogger"); unsub != nil {
 			del := p.Deep(MapDeleteOn("delete observers", fObs))
 			var calls []ssa.Instruction
@@ -546,5 +547,24 @@ func (s *Sel) checkConsumerBeforeProducer(c *Ctx, ruleID string) {
 	}
 	if n == 0 {
 		c.Bad(rule, "none", "", "no websocket subscription with a bounded channel found")
+	}
+}
+
+// checkObserversNeverNil (C18, C20): the observer map of a log buffer is always a map - a buffer is re-registered after
+// Close when a scale renames its replica, and subscribing to a nil map panics.
+func (s *Sel) checkObserversNeverNil(c *Ctx, rule string) {
+	p := c.P
+	fObs := p.Field("pclog", "ProcessLogBuffer", "observers")
+	n := 0
+	for _, f := range p.FuncsOfPkg("pclog") {
+		for _, in := range DirectSites(f, StoreTo("observers", fObs)) {
+			n++
+			v, _ := StoredValue(in, fObs)
+			_, isMk := stripConv(v).(*ssa.MakeMap)
+			c.Check(isMk, rule, "observers-store:"+p.FuncKey(f), p.InstrPos(in), "a map is stored", "the observer map of the log buffer is set to something that is not a freshly made map (nil): the buffer stays in use after Close when a scale renames its replica, and the next subscription panics with an assignment to a nil map")
+		}
+	}
+	if n == 0 {
+		c.Bad(rule, "observers-store:none", "", "the observer map is never initialised")
 	}
 }
